@@ -498,48 +498,57 @@ def judgeScript (pid : String) (inp obs : Json) : Except String Verdict := do
   -- model: accept result by result
   -- what Open does on a closed mux is measured on the code the observation comes from
   let lateClosed := getBoolD obs "late_closed"
-  let mut s := Sys.init { mp := mp, qlen := qlen, lateClosed := lateClosed }
-  let mut agree := true
-  let mut why := ""
-  let mut idx := 0
-  for (op, r) in ops.zip res do
+  let tab := hexBytes (← getStr obs "trunk_ab")
+  let tba := hexBytes (← getStr obs "trunk_ba")
+  -- A Write that fails towards a dead peer fails either in its header call before the first byte
+  -- (the mux lives on) or later (the mux closes and latches the write error); which of the two is
+  -- not observable at the Write itself.  The acceptance is run with the first reading and, should
+  -- that not explain the rest of the script, again with the second.
+  let accept := fun (epipeCloses : Bool) => Id.run do
+    let mut s := { Sys.init { mp := mp, qlen := qlen, lateClosed := lateClosed } with epipeCloses := epipeCloses }
+    let mut agree := true
+    let mut why := ""
+    let mut idx := 0
+    for (op, r) in ops.zip res do
+      if agree then
+        let lt := (late.find? (·.1 == idx)).map (·.2)
+        match s.apply idx op r lt with
+        | .ok s' => s := s'
+        | .error e => agree := false; why := s!"op {idx}: {e}"
+      idx := idx + 1
     if agree then
-      let lt := (late.find? (·.1 == idx)).map (·.2)
-      match s.apply idx op r lt with
-      | .ok s' => s := s'
-      | .error e => agree := false; why := s!"op {idx}: {e}"
-    idx := idx + 1
-  if agree then
-    let s' := s.settle
-    -- background operations never joined: resolve them now, in issue order, with the result
-    -- the implementation reported at the end of the script
-    let mut fin := s'
-    for (i, r) in late do
-      if agree && i < ops.length then
-        let op := ops[i]!
-        let e := fin.getEnd op.x
-        if op.kind == .readbg then
-          match e.pend.find? (·.op == i) with
-          | none => pure ()     -- joined during the script
-          | some p =>
-            match e.readSeen p.h p.blen p.bcap r with
-            | .ok e' => fin := fin.setEnd op.x { e' with pend := e'.pend.filter (·.op != i) }
-            | .error m => agree := false; why := s!"op {i} (background Read, at the end): {m}"
-        else if op.kind == .acceptbg then
-          match e.doneAcc.find? (·.1 == i), r with
-          | some (_, .conn h), .conn h' => if h != h' then agree := false; why := s!"op {i}: Accept: model conn {h}, implementation {h'}"
-          | some (_, .eof), .eof => pure ()
-          | none, .blocked => pure ()
-          | _, r => agree := false; why := s!"op {i}: background Accept: model and implementation ({r.show}) differ"
-    -- the bytes on the trunk
-    if agree then
-      let tab := hexBytes (← getStr obs "trunk_ab")
-      let tba := hexBytes (← getStr obs "trunk_ba")
-      let same := fun (tap : Bytes) (w : Wire) => match w.exactUpTo with
-        | none => tap == w.sent
-        | some n => tap.take n == w.sent.take n && tap.length ≥ n
-      if !(same tab s'.ab) then agree := false; why := s!"trunk A→B: tapped {tab.length} bytes, model {s'.ab.sent.length} (or contents differ)"
-      else if !(same tba s'.ba) then agree := false; why := s!"trunk B→A: tapped {tba.length} bytes, model {s'.ba.sent.length} (or contents differ)"
+      let s' := s.settle
+      -- background operations never joined: resolve them now, in issue order, with the result
+      -- the implementation reported at the end of the script
+      let mut fin := s'
+      for (i, r) in late do
+        if agree && i < ops.length then
+          let op := ops[i]!
+          let e := fin.getEnd op.x
+          if op.kind == .readbg then
+            match e.pend.find? (·.op == i) with
+            | none => pure ()     -- joined during the script
+            | some p =>
+              match e.readSeen p.h p.blen p.bcap r with
+              | .ok e' => fin := fin.setEnd op.x { e' with pend := e'.pend.filter (·.op != i) }
+              | .error m => agree := false; why := s!"op {i} (background Read, at the end): {m}"
+          else if op.kind == .acceptbg then
+            match e.doneAcc.find? (·.1 == i), r with
+            | some (_, .conn h), .conn h' => if h != h' then agree := false; why := s!"op {i}: Accept: model conn {h}, implementation {h'}"
+            | some (_, .eof), .eof => pure ()
+            | none, .blocked => pure ()
+            | _, r => agree := false; why := s!"op {i}: background Accept: model and implementation ({r.show}) differ"
+      -- the bytes on the trunk
+      if agree then
+        let same := fun (tap : Bytes) (w : Wire) => match w.exactUpTo with
+          | none => tap == w.sent
+          | some n => tap.take n == w.sent.take n && tap.length ≥ n
+        if !(same tab s'.ab) then agree := false; why := s!"trunk A→B: tapped {tab.length} bytes, model {s'.ab.sent.length} (or contents differ)"
+        else if !(same tba s'.ba) then agree := false; why := s!"trunk B→A: tapped {tba.length} bytes, model {s'.ba.sent.length} (or contents differ)"
+    return (agree, why)
+  let (agree, why) := match accept false with
+    | (true, w) => (true, w)
+    | (false, w) => (match accept true with | (true, w') => (true, w') | (false, _) => (false, w))
   let sp := scriptSpec ops.toArray res.toArray late guard
   let anyErr := res.any fun r => match r with | .err k => k != "reserved" | _ => false
   let kinds := (res.filterMap fun r => match r with
